@@ -209,13 +209,14 @@ def run_program(files, entry="main.ms", mode="run", env=None, cpu=20, merge=Fals
 # ----------------------------------------------------------------------------- failure taxonomy (§2.3)
 
 DEFINED = [
+    # exact message fragments of the interpreter for the dynamic failures the language defines
     ("assert", ["An explicit assertion failed"]),
-    ("nil", ["unwrap of `nil`", "nil object, looking up", "on a nil", "unwrap a nil", "is nil", "<Nil ", " Nil>"]),
-    ("index", ["out of bounds", "key error", "index out of range", "cannot index"]),
-    ("zero_div", ["/ by 0", "% by 0", "by zero"]),
-    ("overflow", ["operation overflow/underflow", "cannot be made into", "could not fit", "invalid radix",
-                  "invalid power", "overflow", "underflow", "too large", "too big to", "Could not convert",
-                  "could not convert", "out of range", "radix"]),
+    ("nil", ["unwrap of `nil`", "nil object, looking up", "<Nil ", " Nil>"]),
+    ("index", ["out of bounds", "key error: map does not have key"]),
+    ("zero_div", ["/ by 0", "% by 0"]),
+    ("overflow", ["operation overflow/underflow", "cannot be made into", "could not fit in", "is an invalid radix",
+                  "is an invalid power", "could not be used to index", "out of range integral type conversion attempted",
+                  "new size is too large"]),
     ("ffi", ["FFI:", "Could not open FFI Library", "Could not find symbol"]),
 ]
 
